@@ -512,8 +512,58 @@ def run_jit(ctx, i, rng):
     ctx.check(not (set(r.tobytes() for r in o2) & set(rows)), 'injective:different_seed_same_key', lambda: dict(case=desc))
 
 
+_LIFTATTR = {}
+
+
+def run_lifted_attr_modules(ctx, i, rng):
+  """Sub-modules handed to a lifted module as dataclass attributes are lifted TOGETHER with it (several scopes cross the transform):
+  every one of them still draws from its own position - no two scopes, and no draw of the enclosing module, share a key."""
+  import jax
+  import jax.numpy as jnp
+  import flax.linen as nn
+  tr_name = ['jit', 'remat', 'jit', 'plain'][i % 4]
+  n_kids = 2 + (i // 4) % 2
+  stream = ['dropout', 'params'][(i // 8) % 2]
+  draws_per_leaf = 1 + (i // 16) % 2
+  desc = dict(transform=tr_name, attribute_modules=n_kids, stream=stream, draws_per_leaf=draws_per_leaf)
+  with ctx.case('linen.lifted_attr', i, desc, nontrivial=tr_name != 'plain'):
+    key = (tr_name, n_kids, stream, draws_per_leaf)
+    if key not in _LIFTATTR:
+      class Leaf(nn.Module):
+        @nn.compact
+        def __call__(self, x):
+          return jnp.stack([jax.random.key_data(self.make_rng(stream)) for _ in range(draws_per_leaf)])
+
+      fields = ['m%d' % k for k in range(n_kids)]
+
+      def call(self, x):
+        return jnp.concatenate([getattr(self, f)(x) for f in fields] + [jax.random.key_data(self.make_rng(stream))[None]])
+
+      Outer = type('Outer', (nn.Module,), {'__annotations__': {f: nn.Module for f in fields}, '__call__': nn.compact(call)})
+      O = {'jit': nn.jit, 'remat': nn.remat, 'plain': (lambda c: c)}[tr_name](Outer)
+
+      class Top(nn.Module):
+        @nn.compact
+        def __call__(self, x):
+          kids = {f: Leaf(name='kid_%s' % f) for f in fields}
+          inner = O(**kids, name='o')(x)
+          return jnp.concatenate([inner, jax.random.key_data(self.make_rng(stream))[None]])
+      _LIFTATTR[key] = Top
+    Top = _LIFTATTR[key]
+    rngs = {'params': jax.random.key(i), 'dropout': jax.random.key(500 + i)}
+    out = np.asarray(Top().apply({}, jnp.ones(2), rngs=rngs))
+    out2 = np.asarray(Top().apply({}, jnp.ones(2), rngs=rngs))
+    ctx.op('nn.%s(module with attribute sub-modules)' % tr_name)
+    rows = [r.tobytes() for r in out]
+    ctx.check(len(set(rows)) == len(rows), 'injective:same_key_at_two_positions:scopes_lifted_together',
+              lambda: dict(case=desc, draws=len(rows), distinct=len(set(rows)), keys=out.tolist()))
+    ctx.check(np.array_equal(out, out2), 'determinism:lifted_attr_modules', lambda: dict(case=desc))
+
+
 def run(ctx):
   log = DrawLog(ctx)
+  for i in ctx.indices(32 if ctx.tier == 'quick' else 64, 'linen.lifted_attr'):
+    run_lifted_attr_modules(ctx, i, ctx.rng('lifted_attr', i))
   for i in ctx.indices(18 if ctx.tier == 'quick' else 120, 'linen.jit'):
     run_jit(ctx, i, ctx.rng('jit', i))
   for i in ctx.indices(18, 'adversarial'):
